@@ -140,6 +140,7 @@ pub fn read_probe(src: &[u8], as_str: bool, offset: usize, n: usize) -> Option<V
         ($s:expr) => {
             match n {
                 0 => $s.read::<u8>(offset).map(|b| vec![b]),
+                100 => $s.read::<&[u8; 0]>(offset).map(|a| a.to_vec()),
                 1 => $s.read::<&[u8; 1]>(offset).map(|a| a.to_vec()),
                 2 => $s.read::<&[u8; 2]>(offset).map(|a| a.to_vec()),
                 3 => $s.read::<&[u8; 3]>(offset).map(|a| a.to_vec()),
